@@ -35,7 +35,8 @@ _wb("C10", "property-based testing (rapid): generated well-formed files through 
 
 _wb("C12", "property-based differential testing (rapid): call sequences through shared Configs (built from shared option values, with overrides, and built late) versus a fresh Config per call; plus race-detector stress of one shared Config from 2-4 goroutines",
     "Generated-input search over option sets and sequences of the five APIs; outcomes and resulting directory trees must equal those of fresh Configs; a -race build reports data races of concurrent use. Sampled; race detection is limited to executed accesses.")
-TEXT["C12"]["engine"] = "wb+race"
+TEXT["C12"]["engine"] = "wb+bb+race"
+TEXT["C12"]["technique"] += "; history relation with the snapshot directory removed between calls; black-box metamorphic relation with the real runner (snapshots of test X with all tests == with -run ^X$ alone)"
 _wb("C14", "property-based testing (rapid): metamorphic relations over generated JSON trees (form, whitespace, member order), round-trip through an independent parser, and rejection of inputs that encoding/json rejects",
     "Generated-input search over JSON documents x presentations x input forms x pretty-print options x both JSON entry points, each with an invalid sibling input. Sampled.")
 _wb("C15", "property-based testing (rapid): reference model set(tree, path, placeholder) applied left to right versus the stored document, for gjson-escaped paths and YAML paths; caller's bytes compared before/after",
@@ -64,7 +65,7 @@ _bb("C05", "exhaustive enumeration of the 1440-cell mode table x generated conte
     "Every combination of CI x Update option x UPDATE_SNAPS class x sort x entry point x entry state x obsolete items is executed (quick: once; thorough: three content seeds). Exhaustive over the table, sampled over values.")
 _bb("C08", "property-based testing (rapid) over generated test programs, skip sets and -run patterns, executed by the real test runner which reports which tests started; oracle = items of tests that did not run survive and are unlisted; known findings K2-K5 exempted by predicate and probed by minimal programs",
     "Generated-program search (prefix/substring-related names, nested subtests, shared/custom/standalone files, skips before/after calls, 25 -run shapes, report/clean x sort, stale prefix-siblings). Sampled; four root causes are recorded as known findings and still reported as KNOWN-FINDING lines.")
-_bb("C11", "property-based testing (rapid) over option sets, call shapes, packages and subtest names, each case executed three times (normal, foreign cwd, -trimpath); oracle = exact set of created files and entry ids equals the statement's path formula",
+_bb("C11", "property-based testing (rapid) over option sets, call shapes, packages and subtest names, each case executed eight times (normal / -trimpath build x package dir / foreign cwd x GOFLAGS variants incl. values that merely mention -trimpath); oracle = exact set of created files and entry ids equals the statement's path formula",
     "Generated-input search over Dir/Filename/Ext/API x call shape (0-100 extra frames, non-test files, other package) x package depth x subtest names with '%', '/', spaces. Sampled; -trimpath only for cwd = package dir.")
 
 TEXT["C06"] = dict(
@@ -74,19 +75,22 @@ TEXT["C06"] = dict(
     design_ref="§5.2, §5.3, §6 C06",
     level_note="Trusted base: the Go toolchain incl. the race detector, rapid, the source rewriter (text-offset insertion of yields, line numbers preserved) and the 150-line scheduler/lock shim. File operations between two yields are atomic; kernel-level partial writes are out of reach. /repo is not modified: rewritten sources are supplied through -overlay.")
 
+TEXT["C14"]["technique"] += "; history relation over one caller buffer rewritten in place; enumerated nesting depths up to 10002 (thorough 65536) with an oracle independent of encoding/json"
+TEXT["C15"]["technique"] += "; history relation: matcher values reused after warm-up documents store the same as fresh ones"
 TEXT["C07"]["engine"] = "wb+bb"
 TEXT["C07"]["technique"] += "; cross-checked by a black-box stage with the real test runner (real -test.count / -test.run, Clean called from TestMain)"
 TEXT["C20"]["engine"] = "wb+bb"
 TEXT["C20"]["technique"] += "; plus an all-entry-points scenario and a black-box stage comparing the summary printed by a real process with what its tests were signalled"
-TEXT["C01"]["technique"] += "; plus a native coverage-guided fuzz target in the thorough tier"
-TEXT["C02"]["technique"] += "; plus a native coverage-guided fuzz target in the thorough tier"
-TEXT["C13"]["technique"] += "; plus a native coverage-guided fuzz target in the thorough tier"
+TEXT["C01"]["engine"] = "wb+bb"
+TEXT["C01"]["technique"] += "; a black-box stage records with one build of a real test program (normal / -trimpath) and replays read-only with the other; plus a native coverage-guided fuzz target in the thorough tier"
+TEXT["C02"]["technique"] += "; enumerated texts whose distinct-line count sits on 16-bit / surrogate / U+FFFD boundaries; plus a native coverage-guided fuzz target in the thorough tier"
+TEXT["C13"]["technique"] += "; enumerated texts whose distinct-line count sits on 16-bit / surrogate / U+FFFD boundaries; history relation (report after a > 1 MiB comparison == report in isolation); plus a native coverage-guided fuzz target in the thorough tier"
 
 NOT_APPLICABLE = {}
 
 ENGINES = [
     dict(name="sched", path="/verif/sched", serves_properties=["C06"], kind_free_text="controlled scheduler: go/parser based rewriter inserting yields, cooperative sync shim, schedule-driven runner"),
-    dict(name="bb", path="/verif/bb", serves_properties=["C05", "C07", "C08", "C11", "C20"], kind_free_text="black-box rapid properties driving a compiled, data-driven test program (real testing runner, TestMain, environment) as sub-processes"),
+    dict(name="bb", path="/verif/bb", serves_properties=["C01", "C05", "C07", "C08", "C11", "C12", "C20"], kind_free_text="black-box rapid properties driving a compiled, data-driven test program (real testing runner, TestMain, environment) as sub-processes"),
     dict(name="race", path="/verif/wb", serves_properties=["C06", "C12"], kind_free_text="the white-box binary built with -race; generated goroutine mixes"),
     dict(name="wb", path="/verif/wb", serves_properties=["C01","C02","C03","C04","C07","C09","C10","C12","C13","C14","C15","C16","C17","C18","C19","C20"], kind_free_text="white-box rapid properties compiled into package snaps via go test -overlay"),
 ]
